@@ -62,7 +62,7 @@ def call_op(op, args, gen):
     f = getattr(na, op)
     if op == 'nfa_concatenation' or gen == 'default':
         return f(*args)
-    return f(*args, IdentifierGenerator())
+    return f(*args, IdentifierGenerator(9 if gen == 'private9' else 0))
 
 
 def judge(acc, op, inst, rp, snaps_before, args, result):
@@ -92,14 +92,16 @@ def judge(acc, op, inst, rp, snaps_before, args, result):
 
 
 # ---------------------------------------------------------------- (a) input space, each call from pristine state
-def check_pair(acc, s1, s2, sch1, sch2, eps, gens=('default', 'private')):
-    rp = {'fn': 'mc.props.c18:one_pair', 'mode': 'plain', 'params': {'s1': s1, 's2': s2, 'sch1': sch1, 'sch2': sch2, 'eps': eps}}
+def check_pair(acc, s1, s2, sch1, sch2, eps, gens=('default', 'private', 'private9'), logging=False):
+    from gambatools.global_settings import GambaTools
+    rp = {'fn': 'mc.props.c18:one_pair', 'mode': 'plain', 'params': {'s1': s1, 's2': s2, 'sch1': sch1, 'sch2': sch2, 'eps': eps, 'logging': logging}}
     acc.states += 1
     for op in OPS:
         for gen in gens:
-            if op == 'nfa_concatenation' and gen == 'private':
+            if op == 'nfa_concatenation' and gen != 'default':
                 continue
             hist.pristine()
+            GambaTools.enable_logging = logging
             N1 = spaces.build_nfa(s1, sch1[0], eps, 'sparse') if isinstance(sch1, str) else build_named(s1, sch1, eps)
             N2 = build_named(s2, sch2, eps)
             args = [N1] if op == 'nfa_repetition' else [N1, N2]
@@ -109,7 +111,23 @@ def check_pair(acc, s1, s2, sch1, sch2, eps, gens=('default', 'private')):
             acc.transitions += 1
             if ok:
                 judge(acc, op, inst, rp, snaps, args, r)
+                now = [common.snap_nfa(a) for a in args]
+                if now != snaps:
+                    acc.viol(op, 'an operand / earlier result was modified', inst, repro=rp)
+                if logging:
+                    # the operands must still be usable afterwards (a read of a defaultdict can leave entries behind)
+                    for a in args:
+                        if fa_invalid(a):
+                            acc.viol(op, 'an operand is no longer a valid NFA after the call', inst, repro=rp, observed=fa_invalid(a))
     hist.pristine()
+
+
+def fa_invalid(N):
+    try:
+        fa.from_lib_nfa(N)
+        return None
+    except Exception as e:
+        return str(e)
 
 
 def build_named(spec, names, eps):
@@ -128,11 +146,12 @@ def show_snap(s):
     return {'Q': sorted(Q), 'Sigma': sorted(Sg), 'transitions': sorted('{} -{}-> {}'.format(p, a if a != e else 'eps', q) for (p, a, q) in rel), 'q0': q0, 'F': sorted(F), 'epsilon': e}
 
 
-NAME_PAIRS = [(['s0', 's1'], ['r0', 'r1']), (['q0', 'q1'], ['q2', 'q3']), (['q1', 'q0'], ['q3', 'q2']), (['q2', 'q3'], ['q0', 'q1']), (['q0', 'p'], ['q1', 'r'])]
+NAME_PAIRS = [(['s0', 's1'], ['r0', 'r1']), (['q0', 'q1'], ['q2', 'q3']), (['q1', 'q0'], ['q3', 'q2']), (['q2', 'q3'], ['q0', 'q1']), (['q0', 'p'], ['q1', 'r']),
+              (['q9', 'q10'], ['q0', 'q8']), (['q0', 'q9'], ['q10', 'q11']), (['q10', 'q9'], ['q1', 'q99'])]
 
 
-def one_pair(acc, s1, s2, sch1, sch2, eps):
-    check_pair(acc, tup(s1), tup(s2), list(sch1), list(sch2), eps)
+def one_pair(acc, s1, s2, sch1, sch2, eps, logging=False):
+    check_pair(acc, tup(s1), tup(s2), list(sch1), list(sch2), eps, logging=logging)
 
 
 def t_pairs(acc, n1, t1, n2, t2, shard, nshard, stride, offset, eps_list, name_pairs):
@@ -147,12 +166,14 @@ def t_pairs(acc, n1, t1, n2, t2, shard, nshard, stride, offset, eps_list, name_p
             for eps in eps_list:
                 for (na, nb) in name_pairs:
                     check_pair(acc, s1, s2, na, nb, eps)
+            if idx % 3 == 0:
+                check_pair(acc, s1, s2, name_pairs[0][0], name_pairs[0][1], eps_list[-1], logging=True)
             if s1[3] and s2[3]:
                 acc.nontrivial += 1
 
 
 # ---------------------------------------------------------------- (b) histories
-def run_history(acc, pool_specs, eps, depth, gens, part=0, nparts=1):
+def run_history(acc, pool_specs, eps, depth, gens, part=0, nparts=1, logging=False):
     """BFS over call sequences of the three constructions on a pool of operands with pairwise disjoint states."""
     def make_pool():
         return [build_named(s, names, eps) for (s, names) in pool_specs]
@@ -170,15 +191,20 @@ def run_history(acc, pool_specs, eps, depth, gens, part=0, nparts=1):
         return evs
 
     def apply(pool, ev):
+        from gambatools.global_settings import GambaTools
         op, idxs, gen = ev
-        return call_op(op, [pool[i] for i in idxs], gen)
+        GambaTools.enable_logging = logging
+        try:
+            return call_op(op, [pool[i] for i in idxs], gen)
+        finally:
+            GambaTools.enable_logging = False
 
     def canon(pool):
         return tuple(common.snap_nfa(N) for N in pool)
 
     def on_step(hist_, ev, before, pool, r, failed):
         op, idxs, gen = ev
-        rp = {'fn': 'mc.props.c18:one_history', 'mode': 'plain', 'params': {'pool': pool_specs, 'eps': eps, 'history': hist_ + [ev]}}
+        rp = {'fn': 'mc.props.c18:one_history', 'mode': 'plain', 'params': {'pool': pool_specs, 'eps': eps, 'history': hist_ + [ev], 'logging': logging}}
         inst = {'pool': [show_snap(s) for s in before[:len(pool_specs)]], 'history': [list(e) for e in hist_], 'event': list(ev)}
         if failed is not None:
             acc.viol(op, 'raises after earlier calls' if hist_ else 'raises', inst, repro=rp, error=core.describe_exc(failed))
@@ -199,7 +225,8 @@ def run_history(acc, pool_specs, eps, depth, gens, part=0, nparts=1):
     hist.pristine()
 
 
-def one_history(acc, pool, eps, history):
+def one_history(acc, pool, eps, history, logging=False):
+    from gambatools.global_settings import GambaTools
     """Replays one history without the explorer."""
     pool_specs = [(tup(s), list(n)) for s, n in pool]
     hist.pristine()
@@ -208,7 +235,11 @@ def one_history(acc, pool, eps, history):
         op, idxs, gen = ev[0], tuple(ev[1]), ev[2]
         before = tuple(common.snap_nfa(N) for N in live)
         inst = {'history': history[:k], 'event': list(ev)}
-        ok, r = core.lib_call(acc, op, inst, call_op, op, [live[i] for i in idxs], gen)
+        GambaTools.enable_logging = logging
+        try:
+            ok, r = core.lib_call(acc, op, inst, call_op, op, [live[i] for i in idxs], gen)
+        finally:
+            GambaTools.enable_logging = False
         if not ok:
             break
         after = tuple(common.snap_nfa(N) for N in live)
@@ -227,11 +258,12 @@ POOLS = [
     [(('nfa', 1, 1, (), 0, 1), ['q1']), (('nfa', 1, 1, ((0, 0, 0),), 0, 1), ['q0'])],
     [(('nfa', 2, 1, ((0, 1, 1), (1, 0, 1)), 0, 2), ['q2', 'q0']), (('nfa', 1, 1, (), 0, 0), ['q1']), (('nfa', 1, 1, ((0, 0, 0),), 0, 1), ['r'])],
     [(('nfa', 2, 2, ((0, 0, 1), (1, 1, 0)), 0, 2), ['a0', 'a1']), (('nfa', 2, 2, ((0, 1, 1), (0, 2, 1)), 0, 2), ['q1', 'q3'])],
+    [(('nfa', 2, 1, ((0, 0, 1), (1, 1, 0)), 0, 2), ['q9', 'q10']), (('nfa', 1, 1, ((0, 0, 0),), 0, 1), ['q0']), (('nfa', 1, 1, (), 0, 1), ['c'])],
 ]
 
 
-def t_hist(acc, pool_index, eps, depth, gens):
-    run_history(acc, POOLS[pool_index], eps, depth, gens)
+def t_hist(acc, pool_index, eps, depth, gens, logging=False):
+    run_history(acc, POOLS[pool_index], eps, depth, gens, logging=logging)
     acc.nontrivial += 1
     acc.sample({'pool': [[list(s), n] for s, n in POOLS[pool_index]], 'epsilon': eps, 'depth': depth})
 
@@ -250,6 +282,7 @@ def plan(tier, seed):
         for eps in E:
             tasks.append(('plain', P + 't_hist', {'pool_index': pi, 'eps': eps, 'depth': 2, 'gens': ['default', 'private']}))
         tasks.append(('plain', P + 't_hist', {'pool_index': pi, 'eps': '', 'depth': 3, 'gens': ['default']}))
+        tasks.append(('plain', P + 't_hist', {'pool_index': pi, 'eps': 'ε', 'depth': 2, 'gens': ['default', 'private9'], 'logging': True}))
         if not q:
             tasks.append(('plain', P + 't_hist', {'pool_index': pi, 'eps': '_', 'depth': 3, 'gens': ['default', 'private']}))
     return {'tasks': tasks, 'bounds': {'pairs': 'NFA(1,1,all)^2 all; NFA(2,1,<=3)^2 stride 1/{}; NFA(2,1,<=2) x NFA(1,1) stride 1/{}; 5 name schemes (s/r, q0q1/q2q3, q1q0/q3q2, q2q3/q0q1, q0p/q1r); epsilon spelled \'\', _, ε; default and private identifier generator'.format(256 if q else 16, 8 if q else 1),
@@ -257,4 +290,4 @@ def plan(tier, seed):
             'exhaustive': True,
             'rule': 'pairs: every operand pair x name scheme x epsilon spelling x operation, each from the pristine library state; histories: breadth-first search over all sequences of the three constructions on a pool (results join the pool), every step judged against reference constructions on operand snapshots taken before the call; states = canonical pool contents + hidden generator counters',
             'assumptions': ['operands of one call have disjoint state sets and the same epsilon symbol (precondition of the constructions)',
-                            'pristine state = module globals, function defaults and class attributes restored from a deep copy taken at import']}
+                            'pristine state = module globals, function defaults and class attributes restored from a deep copy taken at import', 'also with GambaTools.enable_logging = True, with a private generator starting at 9, and with operand names around the decimal carry (q9, q10)']}
